@@ -433,3 +433,14 @@ func (w *World) Reopen() error {
 }
 
 func openRO(p string) (*sql.DB, error) { return sql.Open("sqlite3", "file:"+p+"?mode=ro") }
+
+// WrapTS builds a World around a teamserver that was started elsewhere (the real Start()
+// in a child process) on dir.
+func WrapTS(dir string, ts *server.Teamserver) (*World, error) {
+	w := &World{Dir: dir, TS: ts}
+	w.Ext = handlers.NewExternal((*gin.Engine)(nil), handlers.ExternalConfig{Name: "pvx-ext", Endpoint: "pvx"})
+	w.Ext.Teamserver = ts
+	var err error
+	w.SQL, err = sql.Open("sqlite3", tsx.DBPath(dir))
+	return w, err
+}
